@@ -1,3 +1,5 @@
+#[cfg(feature = "verif")]
+use crate::verif::std_shim as std;
 use std::cell::RefCell;
 use std::thread::JoinHandle;
 
@@ -85,9 +87,17 @@ fn do_work<Op: Operator>(mut block: Block<Op>, coord: Coord) {
     let mut catch_panic = CatchPanic::new(|| {
         error!("worker {} crashed!", coord);
     });
+    #[cfg(feature = "verif")]
+    crate::verif::observe::event(crate::verif::observe::Event::WorkerStart(
+        crate::verif::observe::c3(coord),
+    ));
     while !matches!(block.operators.next(), StreamElement::Terminate) {
         // nothing to do
     }
     catch_panic.defuse();
+    #[cfg(feature = "verif")]
+    crate::verif::observe::event(crate::verif::observe::Event::WorkerEnd(
+        crate::verif::observe::c3(coord),
+    ));
     info!("worker {} completed", coord);
 }
